@@ -7,9 +7,9 @@ From ZV Require Import Recover.Consts Recover.Path Recover.ProofsWal Recover.Pro
 Import ListNotations.
 Open Scope N_scope.
 
-Lemma inv_step : forall c s ev s', Inv c s -> single_window s -> step c s ev = Ok s' -> Inv c s'.
+Lemma inv_step : forall c s ev s', fixed c -> Inv c s -> single_window s -> step c s ev = Ok s' -> Inv c s'.
 Proof.
-  intros c s ev s' HI SW H. destruct ev.
+  intros c s ev s' Hfx HI SW H. destruct ev.
   - eapply step_rd_begin; eauto.
   - eapply step_rd_save_before; eauto.
   - eapply step_rd_save_after; eauto.
@@ -58,15 +58,15 @@ Fixpoint sched_ok (c : config) (s : state) (evs : list event) : Prop :=
   | e :: t => single_window s /\ match step c s e with Ok s' => sched_ok c s' t | Err _ => True end
   end.
 
-Lemma inv_run : forall c evs s s', Inv c s -> sched_ok c s evs -> run c s evs = Ok s' -> Inv c s'.
+Lemma inv_run : forall c evs s s', fixed c -> Inv c s -> sched_ok c s evs -> run c s evs = Ok s' -> Inv c s'.
 Proof.
-  induction evs as [|e t IH]; intros s s' HI HS H; simpl in H.
+  intros c evs s s' Hfx. revert s s'. induction evs as [|e t IH]; intros s s' HI HS H; simpl in H.
   - injection H as <-. exact HI.
   - simpl in HS. destruct HS as [SW HS]. destruct (step c s e) as [s1|] eqn:E; [|discriminate].
     eapply IH; [eapply inv_step; eauto | exact HS | exact H].
 Qed.
 
-Lemma inv_reachable : forall c evs s, sched_ok c init_state evs -> run c init_state evs = Ok s -> Inv c s.
+Lemma inv_reachable : forall c evs s, fixed c -> sched_ok c init_state evs -> run c init_state evs = Ok s -> Inv c s.
 Proof. intros. eapply inv_run; eauto. apply inv_init. Qed.
 
 (* what a restart serves from the crash image of a state that satisfies the invariant *)
@@ -97,12 +97,12 @@ Qed.
    during a restart), whatever the instant of the process death and whatever part of the buffered WAL records
    reached the file: the restart procedure succeeds on the crash image and the state it serves is the result of
    applying entries 1..k in order, for a k between the last acknowledged and the last proposed index *)
-Theorem recover_correct : forall c evs s,
+Theorem recover_correct : forall c evs s, fixed c ->
   run c init_state evs = Ok s -> sched_ok c init_state evs ->
   forall j extra ss, image s j extra = Some ss ->
   exists k, recover ss (snapfiles s) (ckpts s) = Ok (range 0 k) /\ acked s <= k <= proposed s.
 Proof.
-  intros c evs s Hrun Hs j extra ss Him. eapply inv_recover; eauto. eapply inv_reachable; eauto.
+  intros c evs s Hfx Hrun Hs j extra ss Him. eapply inv_recover; eauto. eapply inv_reachable; eauto.
 Qed.
 
 (* the ordering invariants by name (for every reachable state) *)
@@ -114,12 +114,12 @@ Definition I3_wal_not_purged_past_newest_snapshot (s : state) : Prop :=
 Definition I4_acknowledged_entries_are_in_every_crash_image (s : state) : Prop :=
   forall j, (j <= unflushed s)%nat -> acked s <= last_entry (all_recs (drop_tail (segs s) j)).
 
-Theorem ordering_invariants : forall c evs s,
+Theorem ordering_invariants : forall c evs s, fixed c ->
   run c init_state evs = Ok s -> sched_ok c init_state evs ->
   I1_I2_newest_marker_has_file_and_checkpoint s /\ I3_wal_not_purged_past_newest_snapshot s
   /\ I4_acknowledged_entries_are_in_every_crash_image s.
 Proof.
-  intros c evs s Hrun Hs. pose proof (inv_reachable c evs s Hs Hrun) as HI.
+  intros c evs s Hfx Hrun Hs. pose proof (inv_reachable c evs s Hfx Hs Hrun) as HI.
   destruct HI as [hi [HP HV]]. split; [|split].
   - exact (p_file _ _ HP).
   - split; [exact (p_first _ _ HP) | exact (p_new_in _ _ HP)].
